@@ -29,7 +29,12 @@ if not skip_demo:
     srcs = [f for f in glob.glob(os.path.join(sd, "demo", "*.rs"))]
     src = [f for f in srcs if os.path.basename(f) == os.path.basename(dest)] or srcs
     shutil.copy(src[0], os.path.join(wt, dest))
-    sel = ("--test %s" % test) if (test and "tests/" in dest) else test
+    test = test.replace("--test ", "").strip()
+    sel = ("--test %s" % test) if (test and "/tests/" in dest and "/src/" not in dest) else test
+    if meta.get("demo_append"):
+        f, line = meta["demo_append"]
+        with open(os.path.join(wt, f), "a") as fh:
+            fh.write("\n" + line + "\n")
     cmd = "CARGO_TARGET_DIR=%s cargo test --offline -p %s %s %s" % (os.environ.get("SEED_TARGET", "/tmp/tgt-seed"), crate, extra, sel)
     # the shared seed target dir aliases the same crate across worktrees (cargo freshness is mtime based):
     # touch every source of the crate(s) involved so that each run rebuilds from THIS worktree
@@ -47,7 +52,7 @@ if not skip_demo:
     touch()
     r1 = sh(cmd, cwd=wt)
     sh("git apply -R %s/patch.diff" % sd, cwd=wt)
-    os.remove(os.path.join(wt, dest))
+    sh("git checkout -q -- . && git clean -fdq crates", cwd=wt)
     res["demo"] = {"cmd": cmd, "without_patch_rc": r0.returncode, "with_patch_rc": r1.returncode}
     print("demo: without rc=%d with rc=%d" % (r0.returncode, r1.returncode))
     if r0.returncode != 0 or r1.returncode == 0:
